@@ -231,6 +231,13 @@ pub fn observe(m: &mut Mdl, c: &Call, r: &mut Rules, w: usize) {
                         }
                     }
                 }
+            } else if pre.st == St::Connecting && !matches!(k, Tk::PingreqSend) {
+                // a keep-alive timeout before the CONNACK: no DISCONNECT can be sent yet, but the expiry must
+                // still end the connection attempt in both protocol versions
+                r.label("c15.expiry-timeout-while-connecting");
+                if !c.has_close() {
+                    r.viol("c15.expiry-effect-connecting", &pre, format!("{k:?} expired while the CONNACK is outstanding: expected a close request; got {}", c.describe()));
+                }
             }
         }
         CallKind::Closed => {
